@@ -1,7 +1,8 @@
 """C07 — duplicate-lock detection of the checked constructors is exact."""
+import re
+
 import common
 import shapes
-from common import from_replay, to_replay  # noqa: F401
 
 COQ_MODULE = "Prop_C07"
 THEOREMS = ["C07_sorting_exact", "C07_retry_exact", "C07_monitor"]
@@ -17,6 +18,31 @@ RULE = ("member lists of length 0..6 over up to 5 free-standing leaves plus nest
         "retrying x containers Vec / Box<[T]> / array / tuple; non-trivial = list contains a duplicate or a nested "
         "member; distinct = distinct (kind, container, member description list)")
 EXHAUSTIVE = {"quick": False, "thorough": False}
+
+
+class RCase:
+    """the same container handed to a checked constructor twice, its slots overwritten in between (harness/src/packed.rs,
+    `reuse-` lines): each answer is decided by the listing of that moment"""
+
+    def __init__(self, sid, kind, l1, l2):
+        self.sid, self.kind, self.l1, self.l2 = sid, kind, l1, l2
+        self.hist, self.meta, self.sched = [], {}, None
+
+    def text(self):
+        return f"pk {self.sid} reuse-{self.kind} {' '.join(map(str, self.l1))} / {' '.join(map(str, self.l2))}"
+
+
+def reuse_cases(rng, n):
+    out = []
+    for i in range(n):
+        k = rng.randint(1, 5)
+        def listing():
+            l = rng.sample(range(8), k)
+            if k >= 2 and rng.random() < 0.5:
+                l[rng.randrange(k)] = l[rng.randrange(k)]          # may plant a repetition
+            return l
+        out.append(RCase(f"c07r_{i}", rng.choice(["boxed", "ref", "retry"]), listing(), listing()))
+    return out
 
 
 def universe(rng, b):
@@ -101,7 +127,7 @@ def gen(tier, rng):
                          "desc": (b.desc[pre[0]] + " then " if pre else "") + b.desc[t],
                          "nested": any(c not in b.leaf_of for c in members)})
         scens.append(s)
-    return scens
+    return scens + reuse_cases(rng, 150 if tier == "quick" else 3000)
 
 
 def one_expr(s, r, t, kind, members):
@@ -111,7 +137,18 @@ def one_expr(s, r, t, kind, members):
             f"[{'; '.join(map(str, ua))}] ({inner}) {'true' if r['ctor'][t] else 'false'}")
 
 
+def shape_of_listing(l):
+    return "SSeq [" + "; ".join(f"SLeaf KMutex {i}" for i in l) + "]"
+
+
 def coq_expr(s, r):
+    if isinstance(s, RCase):
+        m = re.match(r"reuse (some|none) (some|none)$", r.get("pkobs", "") or "")
+        if not m:
+            return "mkv true true false false"
+        ok = " && ".join(f"mon_C07 ({shape_of_listing(l)}) {'true' if g == 'some' else 'false'}"
+                         for l, g in ((s.l1, m.group(1)), (s.l2, m.group(2))))
+        return f"mkv true true ({ok}) ({ok})"
     t = s.meta["tested"]
     if t not in r["ctor"]:
         return None
@@ -127,6 +164,9 @@ def coq_expr(s, r):
 
 
 def classify(s, r):
+    if isinstance(s, RCase):
+        return ["family=same-container-checked-twice", f"kind={s.kind}", f"len={len(s.l1)}",
+                "dup1=" + str(len(set(s.l1)) < len(s.l1)), "dup2=" + str(len(set(s.l2)) < len(s.l2))]
     return [f"kind={s.meta['kind']}", f"len={len(s.meta['members'])}",
             "dup=" + ("planted" if s.meta["planted"] else "none"),
             "earlier_try_new=" + ("none" if not s.meta.get("pre") else "rejected" if not r["ctor"].get(s.meta["pre"][0]) else "accepted"),
@@ -134,8 +174,23 @@ def classify(s, r):
 
 
 def nontrivial(s, r):
+    if isinstance(s, RCase):
+        return len(set(s.l1)) < len(s.l1) or len(set(s.l2)) < len(s.l2)
     return bool(s.meta["planted"]) or s.meta["nested"]
 
 
 def signature(s):
-    return s.meta["desc"]
+    return s.text() if isinstance(s, RCase) else s.meta["desc"]
+
+
+def to_replay(s):
+    return {"case": s.text()} if isinstance(s, RCase) else common.to_replay(s)
+
+
+def from_replay(j):
+    sc = j.get("scenario") or j
+    if "case" in sc:
+        t = sc["case"].split()
+        cut = t.index("/")
+        return [RCase(t[1], t[2][len("reuse-"):], [int(x) for x in t[3:cut]], [int(x) for x in t[cut + 1:]])]
+    return common.from_replay(j)
